@@ -57,6 +57,14 @@ def handle (j : Json) : R Json := do
     let reads ← (← getArr j "reads").toList.mapM asHex
     let fin := Rx.run (mockAead key) (upgrade leftover) reads
     pure (Json.mkObj [("closed", Json.bool fin.1.closed), ("out", jhex fin.2)])
+  | "rekey" =>
+    -- a second pair-verify completed inside the session: reads1 under key1, re-key, reads2 under key2
+    let k1 ← getNat j "key1"
+    let k2 ← getNat j "key2"
+    let reads1 ← (← getArr j "reads1").toList.mapM asHex
+    let reads2 ← (← getArr j "reads2").toList.mapM asHex
+    let fin := Rx.run2 (mockAead k1) (mockAead k2) {} reads1 reads2
+    pure (Json.mkObj [("closed", Json.bool fin.1.closed), ("out1", jhex fin.2.1), ("out2", jhex fin.2.2)])
   | "event" =>
     -- create_hap_event around the given JSON body bytes
     let body ← getHex j "body"
